@@ -1,6 +1,7 @@
 import GeomV.C05.Spec
 import GeomV.C05.Stream
 import GeomV.C05.BinStd
+import GeomV.C05.Sink
 /-!
 Driver for C05.  `geomv_c05 prep` rewrites `mix` lines into `mdec` lines using the independent OGC
 serializer with a pseudo-random byte-order tree; `geomv_c05 judge` reads lines carrying the
@@ -373,14 +374,30 @@ def judgeLine (line : String) : String :=
     | none => "BAD parse"
     | some (g, _) =>
       let lim := lim.toNat?.getD 0
-      match serialize (boOf o) g, encode (boOf o) g with
-      | some enc, .ok menc =>
+      -- the model of the call, writer call by writer call (Sink.lean: one `w.Write` per `binary.Write`, the writer
+      -- accepting `lim` bytes in total and failing with its error 9 on the call that crosses the limit)
+      let (w, res) := Sink.writeW Sink.limSink (boOf o) g (Sink.LimW.new lim 9)
+      let want := [match res with | none => "ok" | some (.io c) => s!"err:io{c}" | some (.wkb _) => "err:wkb", "x" ++ bytesToHex w.acc]
+      match serialize (boOf o) g with
+      | some enc =>
         if enc.length ≤ lim then
           if rhs == ["ok", "x" ++ bytesToHex enc] then "OK wrfail-fits"
           else s!"SPEC wrfail-fits bytes-written-differ-from-OGC-layout got={" ".intercalate (rhs.take 1)}"
-        else if rhs == ["err:io9", "x" ++ bytesToHex (menc.take lim)] then "OK wrfail-short"
+        else if rhs == want then "OK wrfail-short"
         else s!"DIFF wrfail-short writer-failing-after-{lim}-bytes impl={" ".intercalate (rhs.take 1)}"
-      | _, _ => "OK skipped"
+      | none =>
+        -- an unsupported value: an error must be reported, and what reached the writer before it must be a prefix
+        -- of what the model hands to a writer that never fails (C05_sink_unsupported_any); an implementation that
+        -- hands over less (buffers, or rejects before the flag byte) is not at fault
+        let full := (Sink.writeW Sink.limSink (boOf o) g (Sink.LimW.new (10^9) 9)).1.acc
+        let got := match rhs with | [_, h] => hexToBytes ((h.drop 1).toString) | _ => none
+        if rhs == want then "OK wrfail-unsupported"
+        else if rhs.head? == some "ok" then s!"SPEC wrfail-unsupported unsupported-value-written-without-error"
+        else match got with
+          | some bs =>
+            if bs.length ≤ lim && bs == full.take bs.length then "OK wrfail-unsupported-prefix"
+            else s!"DIFF wrfail-unsupported bytes-handed-to-the-writer-before-the-error-are-not-a-prefix-of-the-encoding want={" ".intercalate want} impl={" ".intercalate (rhs.take 2)}"
+          | none => "BAD parse"
   | "encbo" :: which :: gt =>
     match geomOfToks gt with
     | none => "BAD parse"
@@ -400,7 +417,10 @@ def judgeLine (line : String) : String :=
       match rhs with
       | ["skipped"] => "OK decin-skipped"
       | state :: res =>
-        if state != "intact" then s!"SPEC {cls} Decode-{state}"
+        -- nil vs empty: the decoder builds every slice non-nil, also for a count of 0 (correspondence only: the
+        -- property does not distinguish nil from empty)
+        if state.startsWith "intact-nil" then s!"DIFF {cls} decoder-returned-a-nil-slice-{state}"
+        else if state != "intact" then s!"SPEC {cls} Decode-{state}"
         else if sameRes res m then s!"OK {cls}"
         else if res.head? == some "panic" then s!"SPEC {cls} decoder-panicked"
         else s!"DIFF {cls} model={showRes m} impl={" ".intercalate (res.take 8)}"
